@@ -46,7 +46,7 @@ func init() {
 			}
 			return 900
 		},
-		Require: []string{"exhaustive_patterns_exact", "random_cases", "honest_roundtrips_bloom", "honest_roundtrips_server_path", "matched_txs_recovered",
+		Require: []string{"dup_tail_forgeries", "dup_tail_forgeries_rejected", "dup_tail_branch_refused", "exhaustive_patterns_exact", "random_cases", "honest_roundtrips_bloom", "honest_roundtrips_server_path", "matched_txs_recovered",
 			"model_replays", "sidechain_filter_cases", "false_positive_matches_seen", "inblock_spend_matches", "corrupt_hash_bits", "corrupt_hash_full_sweeps", "corrupt_flag_bits",
 			"corrupt_truncated", "corrupt_extended", "corrupt_txcount", "corrupt_root", "corrupt_rejected", "branches_checked", "branches_odd_width", "widths_non_power_of_two"},
 		Assumptions: []string{"sha256 from the Go standard library", "the filter-protocol model of props/c39_model.go (checked against the real filter by C39)",
@@ -436,6 +436,7 @@ func c08Case(c *kit.Ctx, r *rand.Rand, b *c08Block, ref *refBloom, refTypes []by
 			}
 		}
 	}
+	c08DupTail(c, b, id)
 	w := wires[0]
 	if (exhaustive && n == 5 && len(idxBloom) == 2) || (!exhaustive && n == 13 && len(idxBloom) > 0 && len(idxBloom) < 5) {
 		c.Sample(map[string]interface{}{"kind": "honest", "case": id, "n": n, "pattern": pattern, "filter_bytes": len(ref.bits), "hash_funcs": ref.k, "tweak": ref.tweak, "hashes_in_message": len(w.Hashes), "flag_bytes": fmt.Sprintf("%x", w.Flags), "tx_count": w.Transactions})
